@@ -201,6 +201,9 @@ func build(t target, d *dynamicpb.Message) (any, error) {
 	if nilElems {
 		nilElemsPoked += pokeNilElems(reflect.ValueOf(g), d.Descriptor(), 0)
 	}
+	if invalidUTF8 {
+		invalidUTF8Poked += pokeInvalidUTF8(reflect.ValueOf(g), 0)
+	}
 	return g, nil
 }
 
